@@ -42,9 +42,10 @@ def _stream(rng):
     return "int" if rng.random() < 0.6 else "float"
 
 
-def _shape(rng, N):
+def _shape(rng, N, small=True):
+    """mode sizes 3..5; with `small`, now and then a mode of size 1 or 2 (a size-1 mode is constant along itself: its derivative is 0)"""
     hi = 5 if N <= 3 else 4
-    return [rng.randint(3, hi) for _ in range(N)]
+    return [rng.randint(1, 2) if (small and rng.random() < 0.12) else rng.randint(3, hi) for _ in range(N)]
 
 
 def _bounds(rng):
@@ -118,7 +119,7 @@ def gen_case(rng, kind):
             c["u"] = gen_tensor(rng, shape, fmt=_fmt(rng, N, dims), stream=stream).to_json()
             c["ab"] = [rng.choice([2, -1, 3, 0.5]), rng.choice([1, -2, 4, -0.25])]
     elif kind in ("const", "affine"):
-        shape = _shape(rng, N)
+        shape = _shape(rng, N, small=False)
         d = rng.randrange(N)
         fmt = _fmt(rng, N, [d])
         t = gen_tensor(rng, shape, fmt=fmt, stream=stream)
@@ -198,6 +199,8 @@ def stencil(x, d, order, h, periodic):
     for _ in range(order):
         if periodic:
             x = (np.roll(x, -1, axis=d) - np.roll(x, 1, axis=d)) / (2 * h)
+        elif I == 1:
+            x = np.zeros_like(x)             # a single point: constant along the mode, annihilated
         else:
             lo = 2 * np.take(x, [0], axis=d) - np.take(x, [1], axis=d)
             hi = 2 * np.take(x, [I - 1], axis=d) - np.take(x, [I - 2], axis=d)
